@@ -21,7 +21,7 @@ def plan(ctx):
            # a DoDoer's own extend() with two new doers where the enter of either may raise, and a DoDoer's remove() called in
            # the middle of its cycle with victims on both sides of the caller (seeded changes C02-a1 / C02-a2 hid there)
            ("dd-ext-fault", sched.mk([["G", "a", "b"], "c"], extra=["x", "y"], always={"G": True}, Tocks=[0], MaxSteps=2, Limit=3,
-                                     MaxOps=1, EnterOuts=["ok", "x"], MaxFaults=1, ext={"G": [["x", "y"]]})),
+                                     MaxOps=1, EnterOuts=["ok", "x"], MaxFaults=1, ext={"G": [["x", "y"], ["x", "x"], ["a", "y", "y"]]})),
            ("dd-remove-mid", sched.mk([["G", "b", "c", "e"], "d"], Tocks=[0], MaxSteps=3, Limit=3, MaxOps=1,
                                       rem={"G": [["b", "e"], ["e", "b"], ["e", "c", "b"]]}))]
     big = sched.mk(["a", ["G", "b", ["H", "c", "e"]], "d", ["K", "f"]], extra=["x", "y", "z"], owntock={"K": 2},
